@@ -211,6 +211,11 @@ func c17Run(c c17Case) Outcome {
 		_ = h.C.Close()
 	}
 	returned := h.WaitServeDone(6 * time.Second)
+	for try := 0; !returned && try < 12 && peer.AnyLive(h.ConnGoroutines()); try++ {
+		// a goroutine of the connection is running or waiting for the CPU: slow, not stuck (seen with the
+		// thorough tier niced on a loaded machine). Up to 30 s in all; a stuck connection has none.
+		returned = h.WaitServeDone(2 * time.Second)
+	}
 	desc := fmt.Sprintf("stream of %d octets cut at %d, %d mutations", len(stream), n, len(c.Muts))
 	if !returned {
 		gs := h.ConnGoroutines()
